@@ -688,7 +688,7 @@ func c34(r *vkit.Run) {
 		r.SetMinDistinct(0)
 		return
 	}
-	n := envN(r.N(700, 9000))
+	n := envN(r.N(700, 7000))
 	var neg, resets, big int64
 	vkit.Parallel(n, 32, func(i int) {
 		cs := c34Gen(r, i)
